@@ -151,7 +151,7 @@ class Minimiser:
     def run(self, case):
         if "concurrent" in case:
             return self.run_concurrent(case)
-        if "header_alone" in case or "edge_program" in case:  # nothing to shrink
+        if "header_alone" in case or "edge_program" in case or "fwd_unit" in case:  # nothing to shrink
             self.evals += 1
             return copy.deepcopy(case), self.fails(case)
         if "session" in case:
